@@ -710,7 +710,10 @@ def prove_eq(ctx: Ctx, a, b, timeout_ms=20000, extra=()):
     if a is None or b is None:
         raise TypeError("prove_eq on non-numbers")
     if a.c is not None and b.c is not None:
-        return ("valid", None) if a.c == b.c else ("cex", None)
+        if a.c == b.c:
+            return "valid", None
+        r, m = ctx.model(extra)
+        return ("cex", m) if r == "sat" else ("unknown", None) if r == "unknown" else ("valid", None)
     n1, n2 = a.cross(b)
     diff = _som(n1 - n2)
     if z3.is_rational_value(diff):
